@@ -366,3 +366,65 @@ def gen_detach_pattern(rng):
     for c in range(ncomp):
         ops.append(['quiesce', c])
     return {'tmpls': tmpls, 'progs': progs, 'comps': comps, 'ops': ops}
+
+
+def gen_cache_pattern(rng):
+    """dispatch (warm cache) -> one handler-table change -> dispatch the same event again: the change must be
+    reflected, for named, channel catch-all and global handlers, added or removed, by object or by name"""
+    r = rng
+    names = [1, 2]
+    tmpls = [{'name': str(n), 'flags': '', 'sc': None, 'cc': None} for n in names]
+    progs = [[], [['ret', 3]]]
+    ncomp = r.randint(1, 3)
+    comps = []
+    kinds = []
+    for ci in range(ncomp):
+        hs = []
+        for _ in range(r.randint(2, 4)):
+            k = r.choice(['named', 'named', 'catchall', 'global', 'multi'])
+            if k == 'named':
+                h = {'names': [str(r.choice(names))], 'chan': r.choice([None, '*', 'n1'])}
+            elif k == 'multi':
+                h = {'names': ['1', '2'], 'chan': None}
+            elif k == 'catchall':
+                h = {'names': [], 'chan': r.choice([None, 'n1'])}
+            else:
+                h = {'names': [], 'chan': '*'}
+            h.update({'prio': r.choice([0, 0, 1]), 'prog': r.randrange(2), 'installed': r.random() < 0.7})
+            hs.append(h)
+            kinds.append(k)
+        comps.append({'chan': r.choice(['*', 'n1']), 'handlers': hs, 'timer': None})
+    hid = 0
+    inst, dyn, multi = [], [], []
+    for ci, c in enumerate(comps):
+        for h in c['handlers']:
+            (inst if h['installed'] else dyn).append(hid)
+            if len(h['names']) > 1:
+                multi.append(hid)
+            hid += 1
+        hid += 1
+    ops = []
+    for c in range(1, ncomp):
+        ops.append(['do', c, ['reg', c, r.randrange(c)]])
+    target = r.choice([None, '*', 'n1'])
+
+    def round_():
+        for n in r.sample(names, r.randint(1, 2)):
+            ops.append(['do', r.randrange(ncomp), ['fire', names.index(n), target, 0, False]])
+        ops.append(['quiesce', 0])
+
+    round_()
+    for _ in range(r.randint(1, 4)):
+        x = r.random()
+        if x < 0.45 and inst:
+            h = r.choice(inst)
+            if h in multi and r.random() < 0.5:
+                ops.append(['do', 0, ['rmH', h, r.choice(['1', '2'])]])
+            else:
+                ops.append(['maybe_rmH', h])
+        elif dyn:
+            h = r.choice(dyn)
+            ops.append(['do', 0, ['addH', h]])
+            inst.append(h)
+        round_()
+    return {'tmpls': tmpls, 'progs': progs, 'comps': comps, 'ops': ops}
